@@ -100,6 +100,18 @@ def directionOf (d : Desc) (dirs : List (String × String)) (p : ProtDesc) : Opt
   | some (_, v) => some v
   | none => p.direction
 
+/-- the (kind, direction, id width) of every protocol that has a direction -/
+def dirIdWidths (d : Desc) (dirs : List (String × String)) : List ((Option String × String) × Nat) :=
+  d.protocols.filterMap fun p =>
+    (directionOf d dirs p).map fun dir => ((if d.netType == .nw then p.type else none, dir), p.idW)
+
+/-- the end of compile_endpoints: protocols that share an AXI configuration need one ID width -/
+def checkIdWidths (d : Desc) (dirs : List (String × String)) : D Unit :=
+  let ws := dirIdWidths d dirs
+  if ws.any (fun a => ws.any fun b => a.1 == b.1 && a.2 != b.2) then
+    throw (.protocol "All protocols of one direction must have the same ID width")
+  else pure ()
+
 structure NI where
   name : String
   epIdx : Nat
@@ -233,6 +245,7 @@ structure Compiled where
 def compileNetwork (d : Desc) (g : Graph) : D Compiled := do
   let ids ← compileIds d g
   let dirs ← inferDirections d g
+  checkIdWidths d dirs
   let nis ← compileNis d g ids
   let routers ← compileRouters d g ids
   pure { g, ids, dirs, nis, routers }
